@@ -68,7 +68,7 @@ def expected_fields(role, tag, k):
 
 class P(Property):
     id = 'C10'
-    gen_modules = ['gen_codes', 'gen_static', 'gen_qstateless', 'gen_limits', 'gen_settings', 'gen_prefixint', 'gen_huffman', 'gen_huffman_enc', 'gen_prefixstring', 'gen_bitwin']
+    gen_modules = ['gen_codes', 'gen_static', 'gen_qstateless', 'gen_limits', 'gen_settings', 'gen_prefixint', 'gen_huffman', 'gen_huffman_enc', 'gen_prefixstring', 'gen_bitwin', 'gen_huffiter']
     properties_v = 'Properties/C10.v'
     model_targets = ['Model/SectionLimit.vo', 'Spec/RFC9204Static.vo', 'Spec/FieldSize.vo']
     extract_v = 'Extract/ExtractC10.v'
